@@ -66,6 +66,24 @@ def option_aliases(R, module):
     return al
 
 
+def local_option_aliases(fn_node, aliases, opts):
+    """Locals assigned exactly once, from a plain read of a boolean option: name -> option."""
+    out = {}
+    counts = {}
+    for n in q.scope_nodes(fn_node):
+        if isinstance(n, ast.Name) and isinstance(n.ctx, ast.Store):
+            counts[n.id] = counts.get(n.id, 0) + 1
+    for n in q.scope_nodes(fn_node):
+        if isinstance(n, ast.Assign) and len(n.targets) == 1 and isinstance(n.targets[0], ast.Name):
+            v = n.value
+            if isinstance(v, ast.Attribute) and q.dotted(v.value) in aliases and v.attr in opts and counts.get(n.targets[0].id) == 1:
+                out[n.targets[0].id] = v.attr
+    return out
+
+
+_LOCAL_ALIASES = {}
+
+
 def option_test(expr, aliases, opts):
     """Decompose a condition into (option name, polarity, residual pure conditions) or None."""
     pol = True
@@ -79,6 +97,8 @@ def option_test(expr, aliases, opts):
             x = x.left
         if isinstance(x, ast.Attribute) and q.dotted(x.value) in aliases and x.attr in opts:
             return x.attr
+        if isinstance(x, ast.Name) and x.id in _LOCAL_ALIASES:
+            return _LOCAL_ALIASES[x.id]
         return None
     o = opt_of(e)
     if o:
@@ -136,6 +156,8 @@ class Eraser(object):
         if isinstance(s, ast.Assign) and len(s.targets) == 1:
             t = s.targets[0]
             if isinstance(t, ast.Name) and isinstance(s.value, ast.Call) and q.call_name(s.value) in ("utime", "time.time"):
+                return True
+            if isinstance(t, ast.Name) and t.id in _LOCAL_ALIASES:
                 return True
             if isinstance(t, ast.Attribute) and t.attr in DIAG_FIELDS:
                 v = s.value
@@ -204,6 +226,8 @@ def run(R):
             continue
         aliases = option_aliases(R, m)
         for f in m.all_functions.values():
+            _LOCAL_ALIASES.clear()
+            _LOCAL_ALIASES.update(local_option_aliases(f.node, aliases, opts))
             er = Eraser(R, f, aliases, opts)
             for node in q.scope_nodes(f.node):
                 if not isinstance(node, ast.If):
@@ -251,6 +275,20 @@ def run(R):
                             break
                         if isinstance(anc, ast.stmt):
                             break
+                    st_ = q.enclosing_stmt(node)
+                    if isinstance(st_, ast.Assign) and st_.value is node and len(st_.targets) == 1 and isinstance(st_.targets[0], ast.Name) and st_.targets[0].id in _LOCAL_ALIASES:
+                        # the local may only be used as an if-test
+                        nm = st_.targets[0].id
+                        uses = [x for x in q.scope_nodes(f.node) if isinstance(x, ast.Name) and x.id == nm and isinstance(x.ctx, ast.Load)]
+                        def in_if_test(x):
+                            cur = x
+                            for anc in q.ancestors(x):
+                                if isinstance(anc, ast.If) and any(cur is y for y in ast.walk(anc.test)):
+                                    return True
+                                if isinstance(anc, ast.stmt):
+                                    return False
+                            return False
+                        ok_ctx = all(in_if_test(x) for x in uses)
                     if not ok_ctx:
                         R.violation("C20.ERASE", "%s:%s:non-if" % (f.qualname, node.attr), R.site(f, node),
                                     "option %s is read outside an `if` test (%s): its value flows into the computation" % (node.attr, q.stmt_key(q.enclosing_stmt(node), 60)))
